@@ -624,7 +624,7 @@ def check_clear_affinity(rep, fl, rule="R06.1"):
                       "(or a handle_item between its policy.add and store.try_insert) ends up charged-but-not-resident or resident-but-uncharged after clear()" % (short(callee), short(r)), loc=t["sp"])
 
 
-def check_handle_item_pairing(rep, fl, rule="R06.2"):
+def check_handle_item_pairing(rep, fl, rule="R06.2", collisions=True):
     facts = fl.facts
     hi = fl.proc_fn("handle_item")
     at, entry = dataflow(hi)
@@ -688,6 +688,8 @@ def check_handle_item_pairing(rep, fl, rule="R06.2"):
                     if atom is not None and atom[0] == "variant" and atom[2] == "Delete" and atom[1] == V("item"):
                         ok = ok and must_pass_through(hi, [prm[0][0]], from_bi=tgt) and must_pass_through(hi, [del_rm[0]], from_bi=tgt)
     rep.check(ok, rule, fl, hi, "Delete => policy.remove + store.try_remove", "a Delete item releases the charge and removes the entry for (key, conflict)", "the Delete arm does not pair policy.remove(key) with store.try_remove(key, conflict)")
+    if not collisions:
+        return
     # F10: the un-charge must not be broader than the removal
     if prm and del_rm:
         sts = [expand_state(hi, s, hist=True) for s in at.get((prm[0][0], term_idx(hi, prm[0][0])), set())]
